@@ -89,6 +89,20 @@ def run(O, P):
         rng = random.Random("%s/c01x/%d" % (O.seed, i))
         cfg = F.config_variants(rng) if rng.random() < 0.25 else vlib.default_config()
         cs.append({"id": "c01x-%d" % i, "config": cfg, "calls": [{"code": execgen.program("%s/c01" % O.seed, i), "file": "exec.js"}], "opts": {}})
+    # `eval` as a method "allowed without callee" (the tracer lists it): a bare call of the IDENTIFIER eval is a direct eval, which
+    # sees the local scope; called through anything else it is an indirect one
+    evalcfg = vlib.default_config()
+    evalcfg["csiMethods"] = evalcfg["csiMethods"] + [{"src": "eval", "allowedWithoutCallee": True}]
+    evalprogs = ["try { var secret = 'local'; RES.push(eval('secret')); } catch (e) { RES.push('T:' + e.constructor.name); }",
+                 "try { let inner = 'in'; RES.push(eval('in' + 'ner')); } catch (e) { RES.push('T:' + e.constructor.name); }",
+                 "try { RES.push((function (p) { return eval(str.length ? 'p' : 'q'); })('arg')); } catch (e) { RES.push('T:' + e.constructor.name); }",
+                 "try { const k1 = 'k'; RES.push(eval(`k${1}`), eval(`${'k'}1`.trim())); } catch (e) { RES.push('T:' + e.constructor.name); }",
+                 "try { RES.push(eval(a), eval(), eval('1', f())); } catch (e) { RES.push('T:' + e.constructor.name); }",
+                 "try { RES.push((() => { var loc = 'L'; return eval('lo' + 'c') + eval?.('typeof loc'); })()); } catch (e) { RES.push('T:' + e.constructor.name); }"]
+    for i, body in enumerate(evalprogs):
+        for strict in (False, True):
+            cs.append({"id": "c01eval-%d-%d" % (i, strict), "config": evalcfg,
+                       "calls": [{"code": ("'use strict';\n" if strict else "") + "var RES = [];\nfunction main() {\n  " + body + "\n  return RES;\n}\n", "file": "exec.js"}], "opts": {}})
     # the shape catalogue, executed: every function `f` of a catalogue program is called with observable arguments
     import catalogue
     ncat = 500 if O.tier == "quick" else 18000
